@@ -84,7 +84,8 @@ func (s *state) clone() *state {
 // whole pattern "*" is used.
 type ruleSelector struct {
 	path  map[string]*ruleSelector
-	rules []*annotations.HttpRule
+	rules []*annotations.HttpRule // selectors ending in "*" here
+	exact []*annotations.HttpRule // selectors ending here
 }
 
 func (r *ruleSelector) write(w io.Writer, indent string) {
@@ -93,6 +94,9 @@ func (r *ruleSelector) write(w io.Writer, indent string) {
 		rs.write(w, indent+"  ")
 	}
 	fmt.Fprintf(w, "%srules: %v\n", indent, r.rules)
+	if len(r.exact) > 0 {
+		fmt.Fprintf(w, "%sexact: %v\n", indent, r.exact)
+	}
 }
 
 // String returns the string representation of the ruleSelector.
@@ -103,10 +107,12 @@ func (r *ruleSelector) String() string {
 }
 
 func (r *ruleSelector) getRules(name string) (rules []*annotations.HttpRule) {
-	rules = append(rules, r.rules...)
 	if name == "" {
-		return rules
+		// The name ends here: only selectors that end here too.
+		return append(rules, r.exact...)
 	}
+	// A wildcard stands for one or more further components.
+	rules = append(rules, r.rules...)
 	tag, name, _ := strings.Cut(name, ".")
 	if r = r.path[tag]; r != nil {
 		return append(rules, r.getRules(name)...)
@@ -128,7 +134,7 @@ func (r *ruleSelector) setRules(rules []*annotations.HttpRule) {
 				}
 				r.rules = append(r.rules, rule)
 			case "":
-				r.rules = append(r.rules, rule)
+				r.exact = append(r.exact, rule)
 			default:
 				rs := r.path[tag]
 				if rs == nil {
